@@ -136,6 +136,15 @@ def random_config(rng, custom):
         order = list(range(len(motifs)))      # motif order need not follow column order
         rng.shuffle(order)
         motifs = [motifs[i] for i in order]
+        if rng.random() < 0.6:
+            # nor need a motif's orbit columns be contiguous or ascending: permute the joint-degree columns
+            perm = list(range(len(sizes)))
+            rng.shuffle(perm)                 # old column c becomes column perm[c]
+            new_sizes = [0] * len(sizes)
+            for c, s_ in enumerate(sizes):
+                new_sizes[perm[c]] = s_
+            sizes = new_sizes
+            motifs = [([perm[c] for c in orbits], pairs, bare) for orbits, pairs, bare in motifs]
     return dict(custom=custom, sizes=sizes, motifs=motifs)
 
 
